@@ -74,6 +74,10 @@ fn main() {
                 None => 2,
             }
         }
+        Some("probe") => {
+            probe_idle(args.get(2).and_then(|s| s.parse().ok()).unwrap_or(24));
+            0
+        }
         Some("replay") => {
             let id = args.get(2).unwrap_or_else(|| usage());
             let path = args.get(3).unwrap_or_else(|| usage());
@@ -85,4 +89,17 @@ fn main() {
         _ => usage(),
     };
     std::process::exit(code);
+}
+
+#[allow(dead_code)]
+pub fn probe_idle(hours: u64) {
+    use std::time::Duration;
+    let t = std::time::Instant::now();
+    let rt = sim::paused_rt(1);
+    rt.block_on(async {
+        let solo = props::single::Solo::start(false, [1; 20]);
+        tokio::time::sleep(Duration::from_secs(hours * 3600)).await;
+        println!("log len {}", solo.net.log_len());
+    });
+    println!("idle {hours} h: {:?}", t.elapsed());
 }
